@@ -25,7 +25,6 @@ theorem eventsKitS (sc : String → Bool) (hk : Option Cfg) (base : List Interac
     InvKitS ({ host := PyLite.hostObs, sc := sc, hk := hk } : Env PyLite.World PyLite.HState)
       (BodyEvents base) (fun _ => True) (fun x => bodyName x = true) where
   nUser := fun x hx => by simp [bodyName, hx]
-  nValue := by decide
   nYield := by decide
   nReceive := by decide
   int := fun _ => trivial
